@@ -245,6 +245,12 @@ func rulesC03(e *Engine, r *Report) {
 			r.Check(okd && !res.Undecided, "R03.6", "stage.(*Stage).isFileReady: `not found in the log` ⇒ positive delay", e.InstrPos(tw[0]), "the log miss path parks the file without a retry timer", res.Evals)
 		}
 	}
+	// ---------------------------------------------------------------- R03.8
+	r.Rule("R03.8", "a resumed file can complete: the size the sender's tracker waits for is the number of bytes that will actually be sent - Pop stamps each chunk with the queue node's getSendSize(), which for a resumed file (sts.Recovered) is the sum of its missing ranges and otherwise the file size; a larger value (the whole file, the span of the ranges) is never reached, the file is never polled, confirmed or released - shared with R08.7")
+	e.checkSendSize(r, "R03.8")
+	// ---------------------------------------------------------------- R03.9
+	r.Rule("R03.9", "no eligible file is silently excluded by the wiring: a tag configured without a method is an http tag for every position in the tag list (else the files matching it are put on the ignore list and never sent) - shared with R17.9")
+	e.checkMethodDefault(r, "R03.9")
 }
 
 // checkFailedCompanionDiscarded: the record of ranges of an attempt that
@@ -292,6 +298,52 @@ func (e *Engine) checkFailedCompanionDiscarded(r *Report, rule string) {
 			factsB = append(factsB, fmt.Sprintf("initStageFile: %d `state == failed` edge(s), all reach the partial's creation through Remove[Cmp]: %v", len(edges), okAll))
 			r.Check(optA || optB, rule, "stage: companion of a failed file is discarded before re-reception", e.Pos(fn.Pos()),
 				"neither the validator (on every failure path) nor initStageFile (on every state==failed path) removes the stale companion: a re-sent file completes at its first part and fails validation for ever", 2, append(factsA, factsB...)...)
+		}
+	}
+}
+
+// checkSendSize: the size stamped on every chunk is the queue node's own
+// getSendSize (shared by R03.8 and R08.7).
+func (e *Engine) checkSendSize(r *Report, rule string) {
+	if fn := needFn(e, r, rule, "queue.(*Tagged).Pop"); fn != nil {
+		send := e.fieldStoreVals(fn, "queue.sendable", "send")
+		off := e.fieldStoreVals(fn, "queue.sendable", "offset")
+		ok := len(send) == 1 && len(off) == 1
+		var node string
+		if ok {
+			m := pat("call(queue.(*sortedFile).allocate)(«(.+)», §)#0").FindStringSubmatch(off[0])
+			ok = m != nil
+			if ok {
+				node = m[1]
+				ok = send[0] == "call(queue.(*sortedFile).getSendSize)("+node+")"
+			}
+		}
+		r.Check(ok, rule, "queue.(*Tagged).Pop: chunk.send = getSendSize() of the node the chunk was allocated from", e.Pos(fn.Pos()),
+			"the chunk is stamped with another size than its node's send size: "+strings.Join(send, " | "), 2, append(send, off...)...)
+	}
+	if fn := needFn(e, r, rule, "queue.(*sortedFile).getSendSize"); fn != nil {
+		cls := labeler(C("assert(sts.Recovered)(p0.orig)#1", "resumed"), C("!assert(sts.Recovered)(p0.orig)#1", "plain"))
+		n := 0
+		for _, rw := range e.returnWorlds(r, rule, fn, cls) {
+			n++
+			v := e.Canon(rw.In.(*ssa.Return).Results[0])
+			if rw.W.Has("resumed") {
+				r.Check(v == "invoke(sts.Recovered.GetSendSize)(assert(sts.Recovered)(p0.orig)#0)", rule, "queue.(*sortedFile).getSendSize: a resumed file answers with its own send size", e.InstrPos(rw.In), "a resumed file's send size is "+v, 1, v)
+			} else {
+				r.Check(v == "invoke(sts.Hashed.GetSize)(p0.orig)", rule, "queue.(*sortedFile).getSendSize: any other file answers with its size", e.InstrPos(rw.In), "a plain file's send size is "+v, 1, v)
+			}
+		}
+		r.Min(rule, "returns of getSendSize", n, 2)
+	}
+	for _, name := range []string{"queue.(*sendable).GetSendSize"} {
+		if fn := needFn(e, r, rule, name); fn != nil {
+			ok := false
+			Instrs(fn, func(in ssa.Instruction) {
+				if rt, isRet := in.(*ssa.Return); isRet && len(rt.Results) == 1 && e.Canon(rt.Results[0]) == "p0.send" {
+					ok = true
+				}
+			})
+			r.Check(ok, rule, name+" returns the stamped size", e.Pos(fn.Pos()), "the chunk's GetSendSize does not return the stamped value", 1)
 		}
 	}
 }
